@@ -19,8 +19,11 @@ import time
 import traceback
 
 from . import report
-from .common import (DISCHARGED, ERROR, LOST, OUT, REFUTED, REPLAYS, REPO, UNKNOWN, VERIF,
-                     Obligation, dump, ensure_dirs)
+from .common import (ALT_TREE, DISCHARGED, ERROR, LOST, OUT, REFUTED, REPLAYS, REPO, UNKNOWN,
+                     VERIF, Obligation, dump, ensure_dirs)
+
+# the real code under test: /repo is installed in /venv; a scratch tree is put first on the path
+PYPATH = (REPO + os.pathsep + VERIF) if ALT_TREE else VERIF
 
 VENV_PY = os.environ.get('VERIF_VENV_PY', '/venv/bin/python')
 
@@ -106,7 +109,7 @@ def replay_obligation(prop, ob):
 
 
 def _run_replay(path):
-    env = dict(os.environ, PYTHONPATH=VERIF)
+    env = dict(os.environ, PYTHONPATH=PYPATH)
     try:
         p = subprocess.run([VENV_PY, '-m', 'vf.replay', path], cwd=VERIF, env=env,
                            capture_output=True, text=True, timeout=600)
@@ -126,7 +129,7 @@ def run_rtc(prop, tier, seed):
     out = os.path.join(OUT, f'{prop}.rtc.json')
     if os.path.exists(out):
         os.remove(out)
-    env = dict(os.environ, PYTHONPATH=VERIF, OMP_NUM_THREADS='1', OPENBLAS_NUM_THREADS='1')
+    env = dict(os.environ, PYTHONPATH=PYPATH, OMP_NUM_THREADS='1', OPENBLAS_NUM_THREADS='1')
     try:
         p = subprocess.run([VENV_PY, '-m', 'vf.rtc.run', prop, '--tier', tier, '--seed',
                             str(seed), '--out', out], cwd=VERIF, env=env, capture_output=True,
